@@ -25,7 +25,7 @@ RULE = (
     "ensemble, pipeline, stacking, multiplexer, tuner, depth-2 nestings); for each program x "
     "horizon (non-empty subsets of {1..4}, <=2 steps quick / <=3 thorough) x horizon passing "
     "mode (fit / predict; relative list, array, ForecastingHorizon, absolute ForecastingHorizon, "
-    "relative / absolute pandas Index given in scrambled order; alt_equal: relative steps at fit, "
+    "relative / absolute pandas Index given in scrambled order; sib: every predict preceded by a predict for the sibling horizon with equal first step, last step and length; alt_equal: relative steps at fit, "
     "then alternately absolute and relative requests whose NUMBERS equal those of the previous "
     "request of the other kind, on a series ending at -1) "
     "the complete tree of call histories over {predict, update(size in {1,3} (thorough 1..3), "
@@ -80,6 +80,15 @@ def gen_cases(tier, seed):
                                depth=(3 if deep and not slow else 2), fam=seed % 2)
 
 
+    # every judged predict is preceded by a predict for the SIBLING horizon (same first step, last
+    # step and number of steps, other interior step) from the same cutoff
+    for spec in _specs(tier):
+        if fmenu.needs_fh_at_fit(spec) or (fmenu.is_slow(spec) and tier == "quick"):
+            continue
+        for fh in ([1, 2, 4], [1, 3, 4]):
+            i += 1
+            yield dict(spec=spec, fh=fh, mode="sib_pred_rel_list", idx=list(IDX[(i + seed) % 4]),
+                       n=(12, 15)[(i + seed) % 2], depth=2, fam=seed % 2)
     # two composites constructed from the same member objects, driven in lock-step on a series
     # and on its +7 shifted copy
     for spec in _specs(tier):
@@ -284,6 +293,10 @@ def _run(spec, y_full, n0, steps, mode, hist, res, tag, shift=0):
                     prev = list(rel)
                     fhp = list(rel)
                 npred += 1
+            if mode.startswith("sib_"):
+                sib = [steps[0], steps[0] + steps[-1] - steps[1], steps[-1]]
+                call(lambda: f.predict(list(sib)))
+                res.transitions += 1
             o = call(lambda: f.predict(fhp))
             if alt and needs and rel != list(steps):
                 if o.ok:
